@@ -86,6 +86,15 @@ class LawExec(O.Exec):
                 d.clear()
                 d.update(kw["edge_whitelist"])
                 kw["edge_whitelist"] = d
+            if op.get("wl_inner") == "defaultdict" and kw["edge_whitelist"] is not None:
+                # per-type tables of a mapping type with a behaviour of its own
+                for key, inner in list(kw["edge_whitelist"].items()):
+                    dd = collections.defaultdict(lambda: None)
+                    dd.update(inner)
+                    kw["edge_whitelist"][key] = dd
+            elif op.get("wl_inner") == "ordered" and kw["edge_whitelist"] is not None:
+                for key, inner in list(kw["edge_whitelist"].items()):
+                    kw["edge_whitelist"][key] = collections.OrderedDict(inner)
         from edgegraph.structure.universe import UniverseLaws
 
         if op.get("positional"):
@@ -98,6 +107,21 @@ class LawExec(O.Exec):
             law = UniverseLaws(**kw)
         self.w.add(op["new"], law)
         return law
+
+    def op_probe_wl(self, op):
+        """
+        Read the whitelist the way a rule check would: subscript look-ups, also
+        of pairs that are not listed (those raise KeyError, or give whatever the
+        mapping gives) -- reading must not change what is read.
+        """
+        law = self.g(op["L"])
+        seen = []
+        for outer, inner in op["pairs"]:
+            try:
+                seen.append(law.edge_whitelist[C.ALL_CLASSES[outer]][C.ALL_CLASSES[inner]])
+            except (KeyError, TypeError):
+                seen.append("<absent>")
+        return seen
 
     def op_set_rule(self, op):
         val = op["val"]
@@ -157,6 +181,7 @@ class C19(engine.Property):
         "construction-fed-by-failing-iterable",
         "whitelist-preset-dict-reused",
         "laws-assigned-during-construction-through-attributes",
+        "whitelist-read-by-subscript",
         "assignment-through-item-syntax",
     ]
 
@@ -198,7 +223,7 @@ class C19(engine.Property):
             ),
             "weights": gen.swarm_weights(
                 rng,
-                ["set_laws", "set_applies", "mk_universe", "mk_universe_laws", "mk_laws", "set_rule", "bad_assign"],
+                ["set_laws", "set_applies", "mk_universe", "mk_universe_laws", "mk_laws", "set_rule", "bad_assign", "probe_wl"],
                 always=("set_laws", "set_applies"),
             ),
         }
@@ -224,6 +249,8 @@ class C19(engine.Property):
             if rng.random() < 0.5:
                 op["wl_share"] = rng.choice(["p0", "p1"])
                 st.stats["probe:whitelist-preset-dict-reused"] += 1
+            if rng.random() < 0.3:
+                op["wl_inner"] = rng.choice(["defaultdict", "ordered"])
         if rng.random() < 0.3:
             # pass a prefix of the arguments positionally: every parameter up to
             # the last one must then be given
@@ -296,6 +323,10 @@ class C19(engine.Property):
                 if rng.random() < 0.5:
                     return {"op": "set_applies", "L": rng.choice(ls), "u": {"bad": "obj"}}
                 return {"op": "set_laws", "u": rng.choice(us), "L": {"bad": "obj"}}
+            if kind == "probe_wl" and ls:
+                pairs = [[rng.choice(WL_NAMES[:3]), rng.choice(WL_NAMES[:3] + WL_NAMES[3:])] for _ in range(rng.randint(1, 4))]
+                st.stats["probe:whitelist-read-by-subscript"] += 1
+                return {"op": "probe_wl", "L": rng.choice(ls), "pairs": pairs}
             if kind == "set_rule" and ls:
                 rule = rng.choice(RULES + ("edge_whitelist",))
                 val = (
